@@ -67,6 +67,10 @@ func (r *Row) Add(c Cell) *Row {
 	ptr := &r.cells[column-1]
 	ptr.inRow = r
 	ptr.columnNum = column
+	if r.inTable != nil {
+		// row already attached: the table's column count must keep up
+		r.inTable.resizeColumnsAtLeast(column)
+	}
 	invokePropertyCallbacks(r.rowCellCallbacks, CB_AT_ADD, ptr, r.ErrorContainer)
 	return r
 }
